@@ -25,11 +25,13 @@ def directed(rnd, quick):
                 if sum(comp) != total:
                     continue
                 for declared in (-1, total, max(0, total - 5), limit * 20):
-                    for ex in EXS:
+                    for ex in EXS + ["mptemp"]:
                         if ex in ("json", "form") and total < 3:
                             continue
-                        if ex == "mpfield" and declared != -1:
+                        if ex in ("mpfield", "mptemp") and declared != -1:
                             continue        # the declared length of a multipart request is that of the whole body
+                        if ex == "mptemp" and limit not in (16, 4096):
+                            continue        # the per-field limit of a multipart form is an attribute: two types exist in the harness
                         cases.append({"ex": ex, "limit": limit, "chunks": comp, "declared": declared, "coding": "identity"})
             for coding in ("gzip", "deflate", "br", "zstd"):
                 for ex in ("bytes", "json", "string"):
